@@ -175,7 +175,7 @@ def run_part(ctx):
     for name, _READER in runs:
         _PROG = name
         b = 2 if _READER else bound
-        viols, st = pysched.explore(_body, _check, traced, b, ctx, setup=_setup, max_execs_per_shard=ctx.pick(20000, 300000), max_steps=5000, budget_s=ctx.pick(40, 150))
+        viols, st = pysched.explore(_body, _check, traced, b, ctx, setup=_setup, max_execs_per_shard=ctx.pick(20000, 300000), max_steps=5000, budget_s=ctx.pick(30, 150))
         name = name + ("+reader" if _READER else "")
         ctx.add_violations(viols)
         total["executions"] += st.executions
